@@ -175,6 +175,13 @@ class ImageViewerState(MatplotlibDataViewerState):
                         self.yw_att_helper.world_coord = False
                     self._update_combo_att()
                     self._set_default_slices()
+                    if self.reference_data is None:
+                        # The last layer was removed: x_att and y_att must not
+                        # keep pointing at the pixel axes of the previous
+                        # reference data (a viewer state saved in that
+                        # condition could not be loaded again).
+                        self.x_att = None
+                        self.y_att = None
                     # We need to make sure that we update x_att and y_att
                     # at the same time before any other callbacks get called,
                     # so we do this here manually.
